@@ -573,6 +573,13 @@ func workerMain(t *testing.T) {
 				o.Violation = &Violation{Signature: prop + "/data-race/" + races[0].sig, Detail: races[0].text}
 			}
 		}
+		if os.Getenv("VSIM_DEBUG") != "" {
+			wb, _ := json.Marshal(w)
+			if len(wb) > 300 {
+				wb = wb[:300]
+			}
+			fmt.Fprintf(os.Stderr, "DEBUG seed=%d steps=%d bubbles=%d inconcl=%q viol=%v %s\n", seed, x.Stats.Steps, x.Stats.Bubbles, o.Inconclusive, o.Violation != nil, wb)
+		}
 		sum.Runs++
 		sum.ByScenario[sc.Name]++
 		sum.Steps += int64(x.Stats.Steps)
